@@ -2,7 +2,7 @@
 import os
 
 from . import core
-from .rules import stdio, cert, mark, exact, optstore, inval, idx, atomic, own, tokens, idxclass, copy, pair, structfree, buf, div, counter
+from .rules import stdio, cert, mark, exact, optstore, inval, idx, atomic, own, tokens, idxclass, copy, pair, structfree, buf, div, counter, sentinel, appendinit
 from .effects import Effects
 
 FIX = os.path.join(os.path.dirname(os.path.abspath(__file__)), "fixtures")
@@ -313,6 +313,63 @@ PROPS = {
                       "out-parameters / returns hand the block over; one reasoned exception (ILLwrite_mps objname)",
         "not_decided": "ownership across calls in general (a callee that keeps a pointer it was lent), blocks reachable only through heap "
                        "structures, GMP numbers inside heap arrays (covered only through the allocation macros' own loops)",
+    },
+    "C08": {
+        "rules": [lambda prog, tier: exact.run(prog, {"WRITE": {"roots": ["mpq_QSwrite_prob", "mpq_QSwrite_prob_file", "mpq_QSreport_prob"], "closure": True},
+                                                     "READ": {"roots": ["mpq_QSread_prob", "mpq_QSget_prob"], "closure": True}},
+                                               floors=[("exact literal parser on the LP/MPS read path", ["mpq_QSread_prob"], "mpq_EGlpNumReadStrXc", 1)]),
+                  lambda prog, tier: tokens.run_lp(prog),
+                  lambda prog, tier: tokens.run_sections(prog, "mpq_ILLwrite_lp", {"End"}, print_funcs={"mpq_ILLprint_report": 1}, token_ok=lambda t: t[0].isupper()),
+                  lambda prog, tier: idxclass.run(prog, scope_units=("lp_mpq.c", "write_lp_mpq.c", "rawlp_mpq.c")),
+                  lambda prog, tier: sentinel.run(prog)],
+        "technique": "lossy-conversion sink census over the writer and reader call-graph closures; writer/reader agreement of type-resolved "
+                     "keyword literals; must-pass analysis of section emitters before the terminator; index-space typing of the writer",
+        "explanation": "Decides four structural clauses of the LP round trip: (R-EXACT) on every path of QSwrite_prob / QSreport_prob and of "
+                       "QSread_prob / QSget_prob numbers move only through exact conversions (mpq_get_str-based printing, the exact literal "
+                       "parser; no double, strtod, %lf) except in log arguments; (R-TOKENS) every keyword and sense token the LP writer emits is "
+                       "among the literals the LP reader compares against; (R-SECTIONS) 'End' is written only after every section emitter "
+                       "loop has been passed; (R-IDXCLASS) the writer never subscripts an internal-column array with a structural index.",
+        "level_text": "All-paths / all-sites structural guarantee for exact number transport and keyword agreement; necessary conditions of the "
+                      "round trip. Text-level round-trip equality (name repair, wrapping, bound elision, range splitting) is not decided.",
+        "level_note": "trusted: sink list of sa/rules/exact.py; literals matched case-insensitively as the reader does; writer emissions are "
+                      "the literals passed to ILLprint_report / ILLwrite_lp_state_append",
+        "not_decided": "that the written text denotes the same problem for every input (value-dependent semantics of line wrapping, name "
+                       "repair, default-bound elision, range splitting); the unbounded line buffer of the LP writer is a C17 known finding",
+    },
+    "C09": {
+        "rules": [lambda prog, tier: exact.run(prog, {"WRITE": {"roots": ["mpq_QSwrite_prob", "mpq_QSwrite_prob_file", "mpq_QSreport_prob"], "closure": True},
+                                                     "READ": {"roots": ["mpq_QSread_prob", "mpq_QSget_prob"], "closure": True}}),
+                  lambda prog, tier: tokens.run_mps(prog),
+                  lambda prog, tier: tokens.run_sections(prog, "mpq_ILLwrite_mps", {"ENDATA"}, print_funcs={"mpq_ILLprint_report": 1}, token_ok=lambda t: t.isupper() and len(t) >= 2),
+                  lambda prog, tier: idxclass.run(prog, scope_units=("mps_mpq.c", "rawlp_mpq.c")),
+                  lambda prog, tier: sentinel.run(prog), lambda prog, tier: appendinit.run(prog)],
+        "technique": "lossy-conversion sink census over writer/reader closures; table agreement (section names, bound mnemonics, row-type "
+                     "letters, markers) between the MPS writer's format literals and the reader's tables / switch cases / strcmp operands; "
+                     "must-pass analysis of section emitters before ENDATA; index-space typing",
+        "explanation": "Same structure as C08 for MPS: exact number transport on writer and reader paths; every section name the writer emits is "
+                       "in ILLmps_section_name[], every bound mnemonic in mps_bound_name[], every row-type letter a case of the reader's "
+                       "switch, every quoted marker a strcmp operand of the reader; ENDATA only after all section loops; no index-space mix-up.",
+        "level_text": "All-sites table agreement and exact-transport guarantee (necessary conditions of the MPS round trip). RANGES sign "
+                      "semantics and the LP<->MPS equivalence are value-dependent and not decided.",
+        "level_note": "trusted: as C08; tokens are taken from the first words of the writer's format literals",
+        "not_decided": "RHS/RANGES/BOUNDS semantics (sign- and sense-dependent interval reconstruction), default bounds of integer columns "
+                       "(seeds C09/2, C10/3), the literal parser's state machine (seeds C09/3, C10/1)",
+    },
+    "C10": {
+        "rules": [lambda prog, tier: exact.run(prog, {"READ": {"roots": ["mpq_QSread_prob", "mpq_QSget_prob"], "closure": True}},
+                                               floors=[("exact literal parser reachable from QSread_prob", ["mpq_QSread_prob"], "mpq_EGlpNumReadStrXc", 1),
+                                                       ("exact literal parser reachable from ILLget_value", ["mpq_ILLget_value"], "mpq_EGlpNumReadStrXc", 1)])],
+        "technique": "lossy-conversion sink census over the reader call-graph closure of the rational instantiation (type-resolved, after "
+                     "preprocessing: the #ifdef between the exact and the double literal reader is resolved as the build resolves it)",
+        "explanation": "Decides one structural clause of C10: on every call path from mpq_QSread_prob / mpq_QSget_prob to the stored problem "
+                       "no numeric literal passes through double / strtod / %lf / continued-fraction conversion, and mpq_ILLget_value reaches "
+                       "the exact parser mpq_EGlpNumReadStrXc (if the guard macro that selects the exact reader stops being defined, the "
+                       "double branch becomes the parsed code and the rule fires).",
+        "level_text": "All-paths guarantee that literals are parsed by the exact routine only; does not decide that the routine's state machine "
+                      "maps each literal to the rational it spells, nor default bounds / repeated terms.",
+        "level_note": "trusted: sink list; integer-valued arguments converted through double (SOS weights) are exact below 2^53",
+        "not_decided": "the digit/dot/exponent/fraction state machine itself (seeds C10/1, C09/3), accumulation of repeated terms (seed C10/2), "
+                       "default bound rules (seed C10/3)",
     },
     "C11": {
         "rules": [lambda prog, tier: buf.run(prog, scope_funcs=set(prog.reachable([prog.require_fn(r).key for r in
